@@ -55,6 +55,9 @@ Mutate(kind, i) ==
   /\ nmut < MaxMut /\ i \in 1..Len(chan) /\ cutAt = 0
   /\ nmut' = nmut + 1
   /\ CASE kind = "flip" -> chan' = [chan EXCEPT ![i].ok = FALSE] /\ UNCHANGED cutAt
+       \* a record the *receiver* sealed itself is played back to it: authentic for the other
+       \* direction only (each direction has its own key), so not authentic here
+       [] kind = "reflect" -> chan' = [chan EXCEPT ![i].ok = FALSE, ![i].id = 0] /\ UNCHANGED cutAt
        [] kind = "drop" -> chan' = SubSeq(chan, 1, i - 1) \o SubSeq(chan, i + 1, Len(chan)) /\ UNCHANGED cutAt
        [] kind = "dup"  -> chan' = SubSeq(chan, 1, i) \o <<chan[i]>> \o SubSeq(chan, i + 1, Len(chan)) /\ UNCHANGED cutAt
        [] kind = "swap" -> /\ i < Len(chan)
@@ -80,7 +83,7 @@ Recv ==
 
 Next == \/ \E sz \in Sizes : Send(sz)
         \/ Heartbeat
-        \/ \E k \in {"flip", "drop", "dup", "swap", "cut"}, i \in 1..Len(chan) : Mutate(k, i)
+        \/ \E k \in {"flip", "reflect", "drop", "dup", "swap", "cut"}, i \in 1..Len(chan) : Mutate(k, i)
         \/ Recv
 Spec == Init /\ [][Next]_vars
 
